@@ -67,6 +67,7 @@ def check_case(case, res=None):
     err2 = _accepts(edited, base)
     if res is not None:
         res.labels["edit:" + case["edit"]] += 1
+        res.labels["variant:" + case["edit"][:2] + ":" + placement.split(":")[0].split("@")[0]] += 1
         res.nontrivial([case["edit"], placement])
         res.extra.setdefault("pairs", 0)
         res.extra["pairs"] += 1
